@@ -258,7 +258,14 @@ def fold_tolerance(after, ctx, fresh_consts, base_value, side=None):
             return None
         val = r.value
         if isinstance(val, tuple):
-            val = val[1] - val[2] if side is None else val[side]
+            if side is None:
+                from .equiv import scalar_residual
+
+                val = scalar_residual(val)
+            else:
+                val = val[side]
+                if isinstance(val, tuple):
+                    return None
         S += abs(val - base_value) / ETA
     return 16 * ULP * S
 
